@@ -91,7 +91,7 @@ def one(ctx: Ctx, P, call, dtypes):
 
 def main(ctx: Ctx):
     ctx.lean_gate()
-    n = 350 if ctx.tier == "quick" else 9000
+    n = 350 if ctx.tier == "quick" else 60000
     for i in range(n):
         P = random_program(ctx.rng)
         call = gen_call(ctx, P)
